@@ -169,12 +169,10 @@ func expand(s spec) []byte {
 	return b
 }
 
-var (
-	bigUsed    atomic.Int64 // multi-MiB payloads generated in this process
-	alignedCnt atomic.Int64
-)
+// bigLeft: multi-MiB payloads the running test may still generate (quick tier: 1 per test, 2 per run).
+var bigLeft atomic.Int64
 
-func bigCap() int64 { return int64(ev.Pick(2, 10)) }
+func resetBigBudget() { bigLeft.Store(int64(ev.Pick(1, 5))) }
 
 // size classes and their weights. cb = around a multiple (1x,2x,3x) of the cipher block size.
 var classNames = []string{"0", "1", "15-17", "4095-4097", "65535-65537", "cb1", "cb2", "cb3", "MiB", "aligned"}
@@ -216,7 +214,7 @@ func genSpecW(t *rapid.T, label string, allowBig bool, classes, comps []int) spe
 		s.Class = "cb1"
 	}
 
-	if s.Class == "MiB" && bigUsed.Load() >= bigCap() {
+	if s.Class == "MiB" && bigLeft.Load() <= 0 {
 		s.Class = "cb2"
 	}
 
@@ -238,7 +236,7 @@ func genSpecW(t *rapid.T, label string, allowBig bool, classes, comps []int) spe
 	case "cb3":
 		s.Size = cbSize(t, 3)
 	case "MiB":
-		bigUsed.Add(1)
+		bigLeft.Add(-1)
 
 		mib := rapid.IntRange(1, ev.Pick(4, 8)).Draw(t, label+".mib")
 		s.Size = mib<<20 + rapid.IntRange(-70000, 0).Draw(t, label+".off")
@@ -247,8 +245,6 @@ func genSpecW(t *rapid.T, label string, allowBig bool, classes, comps []int) spe
 			s.Size = 8 << 20
 		}
 	case "aligned":
-		alignedCnt.Add(1)
-
 		s.K = rapid.IntRange(1, 3).Draw(t, label+".k")
 		s.Shift = rapid.SampledFrom([]int{0, 0, 4}).Draw(t, label+".shift")
 		s.Seed %= 3 // few distinct constructions (memoized, each costs ~100 measuring writes)
